@@ -379,7 +379,8 @@ def _sections(nys, nx=2, tc=False):
 
 @job("deriv.GeomMultiUnification", ("C01", "C02", "C03", "C14"),
      cfgs=[dict(nys=(3, 3), shift=True, tc=False), dict(nys=(2, 3, 2), shift=True, tc=False), dict(nys=(3, 2), shift=False, tc=False),
-           dict(nys=(3, 3), shift=True, tc=True), dict(nys=(3, 4, 2), shift=True, tc=False, _tier=T)])
+           dict(nys=(3, 3), shift=True, tc=True), dict(nys=(3, 4, 2), shift=True, tc=False, _tier=T),
+           dict(nys=(2, 3, 2, 2), shift=True, tc=False), dict(nys=(2, 2, 3, 2, 2), shift=True, tc=False, _tier=T)])      # beyond "the adjacent section"
 def _unification(env, nys, shift, tc):
     env.add_ranges(*MESH_RANGES)
     derivative_contract(env, lambda: cls("geometry.geometry_unification.GeomMultiUnification")(
@@ -388,6 +389,7 @@ def _unification(env, nys, shift, tc):
 
 @job("deriv.GeomMultiJoin", ("C01", "C02", "C03"),
      cfgs=[dict(nys=(3, 3), dims=((1, 1, 1),)), dict(nys=(2, 3, 2), dims=((1, 0, 1), (0, 1, 1))), dict(nys=(3, 2), dims=()),
+           dict(nys=(2, 2, 3, 2), dims=((1, 0, 0), (0, 1, 0), (0, 0, 1))),
            dict(nys=(3, 3, 3), dims=((1, 1, 1), (1, 1, 1), (1, 1, 1)), _tier=T)])
 def _join(env, nys, dims):
     env.add_ranges(*MESH_RANGES)
